@@ -5,6 +5,10 @@ HERE = os.path.dirname(os.path.dirname(os.path.abspath(__file__)))
 
 # id -> (technique, level text, level note, design ref)
 CHECKS = {
+ "C14": ("PBT with invariant oracles (conservation, letter preservation) + reference Liang positions + replay of TeX 913-916 on letter counts, calibrated on the crate's 33 unit goldens and 995 TeX-produced Alice boxes",
+         "Random texts in cmr10 (ligatures, kerns, punctuation, digits, explicit hyphens, 64+ letter words, words after letterless tokens, nodes pushed directly after words) and in cmr10's metrics with generated lig/kern programs involving the hyphen and both boundaries; custom and plain TeX pattern sets; hyphen minimums 1..5 x 1..5. (i) deleting the inserted discretionaries gives back the original list node for node; (ii) at each discretionary pre-break minus hyphen + post-break carry the letters of the replaced nodes; (iii) every discretionary sits at a Liang position allowed by the minimums; (iv) every allowed position has a discretionary unless it lies strictly inside the letters replaced by an earlier one (for kern/=:-only fonts TeX 913-916 is replayed exactly); words tried = the first letter run after every glue.",
+         "Trusted: models/liang.rs, the conservation alignment, cmr10 from the corpus, proptest; a 20 s per-case watchdog reports a hang as a violation. Words where TeX itself rebuilds the list (ligature/implicit kern across the word end) and looping programs are outside the property: skipped and counted.",
+         "DESIGN.md §4 C14"),
  "C10": ("exhaustive header sweep + mutation/grammar-based totality fuzzing under catch_unwind with an independent header model (TFtoPL 20-21) and the composition oracle deserialize(pl_to_tfm(text))",
          "Each of the twelve 16-bit header words takes all 2^16 values against 300 (quick) / 663 (thorough) base files (short files, truncated corpus fonts, a full font); every truncation of every corpus font; random byte mutations; size-consistent random files reaching char_info/lig_kern/exten validation; token-level mutations of every corpus property list and of generated ones (subtree delete/duplicate/swap, parenthesis add/drop, out-of-range numbers, labels for undeclared or too-small characters, huge NEXTLARGER cycles, >255 steps, deep nesting). tfm_to_pl returns exactly the documented error/acceptance the header model predicts; pl_to_tfm returns; its output is accepted by File::deserialize with 4*lf == len and converts back; a second validate_and_fix pass repeats no repair warning; any panic is a violation.",
          "Trusted: the header model (calibrated on the crate's 17 deserialize goldens), catch_unwind with overflow checks on, proptest. Where TFtoPL and the crate's docs disagree on which documented error applies, every documented non-panicking outcome is accepted.",
